@@ -240,7 +240,9 @@ pub fn sweep(which: Which, dense: usize, top: usize) -> Tally {
     ns.reverse();
     let tallies = par::run_workers(1, |_w, claimer| {
         engine::quiet_panics();
-        engine::set_sweep_horizons(30_000_000, 200_000);
+        // no branch-stack horizon: a VM-interpreted {1,N} legitimately holds N branches (the
+        // crate's own cap of 1 000 000 stays in force); the fuel horizon still cuts a runaway loop
+        engine::set_sweep_horizons(400_000_000, 0);
         let mut t = Tally::new();
         for (i, &n) in ns.iter().enumerate() {
             if !claimer.is_mine(i) {
@@ -330,11 +332,9 @@ fn one_form(t: &mut Tally, f: &Form, n: usize, against_regex_crate: bool) {
         }
     };
     if let Some(Err(_)) = &rx {
-        t.violation(
-            pattern.len(),
-            jobj! {"kind" => "counts", "pattern" => pattern.as_str(), "text" => "", "pos" => 0usize, "observed" => "Ok",
-            "summary" => format!("/{}/ is rejected by the regex crate (size limit) but built by fancy-regex with default options", pattern)},
-        );
+        // the regex crate hits its size limit where fancy-regex interprets the repeat in the VM
+        // and never builds the large automaton: not a disagreement about matching
+        t.count("regex_crate_rejects_size_limit(skipped)", 1);
         return;
     }
     t.programs += 1;
